@@ -290,6 +290,7 @@ func Main(t *testing.T) {
 			_ = os.WriteFile(progress, []byte(fmt.Sprintf("%d %d %d\n", seed, i, runSeed)), 0o644)
 		}
 		sc := NewChoice(runSeed)
+		sc.Index = i
 		ci := sc.Pick(weights...)
 		if onlyWorld != "" {
 			for j, c := range cl {
